@@ -4,7 +4,7 @@ from ..paths import PathEnum
 from ..shapes import Shapes, shape_s, TOP
 from ..tables import enum_const_table, string_matcher
 from .fields import field_writers
-from .util import CASEFOLD, LOWER, NEUTRAL_STR, TRIM, const_of, is_call, last_seg, look, norm, option_is_some, transforms, truth
+from .util import payload_of, result_test, option_test, tested_call, CASEFOLD, LOWER, NEUTRAL_STR, TRIM, const_of, is_call, last_seg, look, norm, option_is_some, transforms, truth
 
 EXPLANATION = (
     "Static decision of the header-line parser by path-sensitive dataflow over Headers::parse_header_line, "
@@ -96,22 +96,38 @@ def names(ctx):
         ctx.ob("R15.1", "names|subject-is-input", any(s == ("arg", 1) for s in subterms(subj)), "the compared string derives from the argument", f_try.loc(0))
 
 
-def entries_index(t, i):
-    """t is Index::index(&collect(splitn(..)), const i) (possibly dereferenced)."""
+def line_split(t):
+    """If t is one of the two parts the header line is split into: (i, split call) with i = 0 (name) or
+    1 (value).  Two spellings: collect(splitn(S, 2, ':'))[i]  and  the i-th component of split_once(S, ':')."""
     t = look(t)
-    return is_call(t, "index") and const_of(t[2][1]) == i and is_call(look(t[2][0]), "collect") and is_call(look(look(t[2][0])[2][0]), "splitn")
+    if is_call(t, "index") and isinstance(const_of(t[2][1]), int) and is_call(look(t[2][0]), "collect") and is_call(look(look(t[2][0])[2][0]), "splitn"):
+        return const_of(t[2][1]), look(look(t[2][0])[2][0])
+    if t[0] == "field" and t[3] in ("0", "1"):
+        src = payload_of(t[1])
+        if src is not None and is_call(src, "split_once"):
+            return int(t[3]), src
+    return None
+
+
+def entries_index(t, i):
+    """t is the name (i = 0) or value (i = 1) part of the split header line."""
+    r = line_split(t)
+    return r is not None and r[0] == i
 
 
 def value_uses(term, acc, parent=None):
     """Collect (occurrence of entry[1], parent call name) pairs inside a term."""
     if not isinstance(term, tuple) or not term:
         return
+    if entries_index(term, 1):
+        acc.append(parent)
+        return
     if term[0] == "call":
-        if is_call(term, "index") and entries_index(term, 1):
-            acc.append(parent)
-            return
-        for a in term[2]:
-            value_uses(a, acc, term[1] if a[0] not in ("ref", "deref") or True else parent)
+        args = term[2]
+        if is_call(term, "map_err", "ok_or", "ok_or_else") and term[1].split("::")[0] in ("std", "core") and args:
+            args = args[:1]   # the second argument only builds the error value; it does not interpret the header
+        for a in args:
+            value_uses(a, acc, term[1])
         return
     if term[0] in ("ref", "deref"):
         value_uses(term[1], acc, parent)
@@ -129,17 +145,17 @@ def classify_arm(facts, lf):
     hdiscr = facts.variant_discr("common::headers::Header")
     arm = None
     for (t, c, _bb) in lf.conds:
-        if t[0] == "discr" and is_call(look(t[1]), "from_utf8") and look(look(t[1])[2][0]) == ("arg", 2):
-            if c == ("eq", 1) or (c[0] == "ne" and 0 in c[1]):
-                return "<not-utf8>"
+        if result_test(t, c, lambda y: is_call(y, "from_utf8") and look(y[2][0]) == ("arg", 2)) == "err":
+            return "<not-utf8>"
         if t[0] == "bin" and t[1] in ("Ne", "Eq") and is_call(look(t[2]), "len") and const_of(t[3]) == 2:
             tv = truth(c)
             if (t[1] == "Ne" and tv) or (t[1] == "Eq" and tv is False):
                 return "<no-colon>"
-        if t[0] == "discr" and is_call(look(t[1]), "common::headers::Header::try_from"):
-            if c == ("eq", 1) or (c[0] == "ne" and 0 in c[1]):
-                arm = "<custom>"
-        if t[0] == "discr" and look(t[1])[0] == "field" and look(t[1])[1][0] == "downcast" and look(t[1])[1][2] == "Ok" and is_call(look(look(t[1])[1][1]), "common::headers::Header::try_from"):
+        if option_test(t, c, lambda y: is_call(y, "split_once")) == "none":
+            return "<no-colon>"
+        if result_test(t, c, lambda y: is_call(y, "common::headers::Header::try_from")) == "err":
+            arm = "<custom>"
+        if t[0] == "discr" and payload_of(t[1]) is not None and is_call(payload_of(t[1]), "common::headers::Header::try_from"):
             if c[0] == "eq":
                 arm = hdiscr.get(c[1])
             else:
@@ -165,6 +181,11 @@ def line(ctx):
         arms.setdefault(arm, []).append(lf)
     # R15.6 the split
     split_ok = False
+
+    def utf8_of_arg(src):
+        u = payload_of(src)
+        return u is not None and is_call(u, "from_utf8") and look(u[2][0]) == ("arg", 2)
+
     for lf in leaves:
         for (t, c, _bb) in lf.conds:
             if t[0] == "bin" and t[1] in ("Ne", "Eq") and is_call(look(t[2]), "len"):
@@ -172,9 +193,11 @@ def line(ctx):
                 if is_call(coll, "collect"):
                     sp = look(coll[2][0])
                     if is_call(sp, "splitn"):
-                        src = look(sp[2][0])
-                        from_utf8 = src[0] == "field" and src[1][0] == "downcast" and src[1][2] == "Ok" and is_call(look(src[1][1]), "from_utf8") and look(look(src[1][1])[2][0]) == ("arg", 2)
-                        split_ok = from_utf8 and const_of(sp[2][1]) == 2 and const_of(sp[2][2]) == 58 and const_of(t[3]) == 2
+                        split_ok = utf8_of_arg(sp[2][0]) and const_of(sp[2][1]) == 2 and const_of(sp[2][2]) == 58 and const_of(t[3]) == 2
+            y, _o = tested_call(t, c)
+            if y is not None and is_call(y, "split_once"):
+                # split_once(':') = (before the first colon, everything after it), None without a colon
+                split_ok = utf8_of_arg(y[2][0]) and const_of(y[2][1]) == 58
     ctx.ob("R15.6", "splitn-2-colon", split_ok, "the line (as UTF-8 of the argument) is split with splitn(2, ':') and both parts are required", fn.loc(0))
     # R15.3 per arm error sets
     for arm in ARM_ERRORS:
@@ -256,7 +279,7 @@ def line(ctx):
                 if good:
                     v = look(a[0][4])
                     src = "parse" if field == "content_length" else "common::headers::MediaType::try_from"
-                    good = v[0] == "field" and v[1][0] == "downcast" and v[1][2] == "Ok" and is_call(look(v[1][1]), src)
+                    good = payload_of(v) is not None and is_call(payload_of(v), src)
                 ctx.ob("R15.4", "last-wins|%s" % field, good, "an accepted %s line overwrites self.%s with the parsed value" % (arm, field), fn.loc(lf.bb))
             else:
                 ctx.ob("R15.4", "rejected-does-not-write|%s" % field, not a, "a rejected %s line leaves self.%s alone" % (arm, field), fn.loc(lf.bb))
@@ -407,12 +430,26 @@ def block(ctx, rule):
         for (t, c, _bb) in lf.conds:
             if t[0] == "discr" and is_call(look(t[1]), "next"):
                 it = look(look(t[1])[2][0])
-                while is_call(it, "into_iter"):
+                while is_call(it, "into_iter") or it[0] == "mut":
+                    it = look(it[2][0]) if it[0] == "call" else look(it[1])
+                stops = False
+                if is_call(it, "take_while") and len(it[2]) == 2:
+                    # split(..).take_while(|l| !l.is_empty()): the iteration itself ends at the first empty piece
+                    clo = look(it[2][1])
+                    if clo[0] == "closure" and clo[1] in facts.fns:
+                        stops = True
+                        for l2 in PathEnum(facts.fns[clo[1]], facts).run():
+                            r2 = look(l2.ret())
+                            stops = stops and r2[0] == "un" and r2[1] == "Not" and is_call(look(r2[2]), "is_empty") and look(look(r2[2])[2][0]) in (("arg", 2), ("deref", ("arg", 2)))
                     it = look(it[2][0])
+                    while is_call(it, "into_iter") or it[0] == "mut":
+                        it = look(it[2][0]) if it[0] == "call" else look(it[1])
                 if is_call(it, "split") and const_of(it[2][1]) == "\r\n":
-                    src = look(it[2][0])
-                    if src[0] == "field" and src[1][0] == "downcast" and is_call(look(src[1][1]), "from_utf8") and look(look(src[1][1])[2][0]) == ("arg", 1):
+                    u = payload_of(it[2][0])
+                    if u is not None and is_call(u, "from_utf8") and look(u[2][0]) == ("arg", 1):
                         it_ok = True
+                        if stops and option_is_some(c) is False and lf.kind == "return" and lf.ret()[0] == "agg" and lf.ret()[2] == "Ok":
+                            emp_ok = True
             if is_call(t, "is_empty") and truth(c) is True and lf.kind == "return":
                 r = lf.ret()
                 if r[0] == "agg" and r[2] == "Ok":
@@ -420,7 +457,7 @@ def block(ctx, rule):
         for e in lf.events:
             if e[0] == "call" and e[3] == PHL:
                 a = look(e[4][2][1])
-                if a[0] == "field" and a[1][0] == "downcast" and a[1][2] == "Some" and is_call(look(a[1][1]), "next"):
+                if payload_of(a) is not None and is_call(payload_of(a), "next"):
                     line_ok = True
     ctx.ob(rule, "block|split-crlf", it_ok, "the block is iterated as split(\"\\r\\n\") of its UTF-8 text", fn.loc(0))
     ctx.ob(rule, "block|stops-at-empty", emp_ok, "the first empty piece ends parsing with Ok", fn.loc(0))
@@ -446,7 +483,14 @@ def encoding(ctx):
     seen = set()
     for lf in leaves:
         def cond(pred, want):
-            return any(pred(t) and truth(c) is want for (t, c, _bb) in lf.conds)
+            for (t, c, _bb) in lf.conds:
+                tv = truth(c)
+                while t[0] == "un" and t[1] == "Not":
+                    t = look(t[2])
+                    tv = None if tv is None else not tv
+                if pred(t) and tv is want:
+                    return True
+            return False
 
         empty = cond(lambda t: is_call(t, "is_empty") and look(t[2][0]) == ("arg", 1), True)
         r = lf.ret()
